@@ -58,9 +58,11 @@ Record peer := {
   p_alive : bool;                        (* connection scope not cancelled *)
   p_avail : avail;                       (* last pushed BlockStoreState of the remote peer *)
   p_permits : nat;                       (* reserved get_block calls not yet used *)
-  p_acc : astate;
-  p_held : list (Z * chan)               (* accepted requests whose sender the connection owns *)
+  p_acc : astate
 }.
+
+(* an accepted request whose completion sender connection h_peer owns (the spawned get_block call) *)
+Record hentry := { h_peer : nat; h_num : Z; h_chan : chan }.
 
 (* request(): control state of one requester *)
 Inductive rstate :=
@@ -75,6 +77,7 @@ Record state := {
   s_ver : Z;
   s_peers : nat -> peer;
   s_reqs : nat -> req;
+  s_held : list hentry;                  (* all held calls, in the order they were accepted *)
   s_sent : list chan;                    (* channels on which () was sent *)
   s_dropped : list chan                  (* channels whose sender was dropped unsent *)
 }.
@@ -84,27 +87,36 @@ Definition upd {A} (f : nat -> A) (i : nat) (x : A) : nat -> A :=
 
 Definition set_peer (s : state) (p : nat) (x : peer) : state :=
   {| s_q := s_q s; s_ver := s_ver s; s_peers := upd (s_peers s) p x; s_reqs := s_reqs s;
-     s_sent := s_sent s; s_dropped := s_dropped s |}.
+     s_held := s_held s; s_sent := s_sent s; s_dropped := s_dropped s |}.
 Definition set_req (s : state) (r : nat) (x : req) : state :=
   {| s_q := s_q s; s_ver := s_ver s; s_peers := s_peers s; s_reqs := upd (s_reqs s) r x;
-     s_sent := s_sent s; s_dropped := s_dropped s |}.
+     s_held := s_held s; s_sent := s_sent s; s_dropped := s_dropped s |}.
 Definition with_acc (x : peer) (a : astate) : peer :=
-  {| p_alive := p_alive x; p_avail := p_avail x; p_permits := p_permits x; p_acc := a; p_held := p_held x |}.
+  {| p_alive := p_alive x; p_avail := p_avail x; p_permits := p_permits x; p_acc := a |}.
+
+(* the calls held by connection p, oldest first *)
+Definition held_of (p : nat) (l : list hentry) : list hentry :=
+  filter (fun e => Nat.eqb (h_peer e) p) l.
+(* removes the i-th call of connection p *)
+Fixpoint take_pth (p i : nat) (l : list hentry) : option (hentry * list hentry) :=
+  match l with
+  | [] => None
+  | e :: l' =>
+      if Nat.eqb (h_peer e) p then
+        match i with
+        | O => Some (e, l')
+        | S i' => match take_pth p i' l' with Some (x, r) => Some (x, e :: r) | None => None end
+        end
+      else match take_pth p i l' with Some (x, r) => Some (x, e :: r) | None => None end
+  end.
 
 Definition peer0 : peer :=
   {| p_alive := true; p_avail := {| a_first := 0; a_last := None |}; p_permits := 0;
-     p_acc := AIdle; p_held := [] |}.
+     p_acc := AIdle |}.
 Definition req0 : req := {| r_st := RNone; r_cancel := false |}.
 Definition init : state :=
   {| s_q := []; s_ver := 0; s_peers := fun _ => peer0; s_reqs := fun _ => req0;
-     s_sent := []; s_dropped := [] |}.
-
-Fixpoint remove_nth {A} (i : nat) (l : list A) : list A :=
-  match l, i with
-  | [], _ => []
-  | _ :: l', O => l'
-  | x :: l', S i' => x :: remove_nth i' l'
-  end.
+     s_held := []; s_sent := []; s_dropped := [] |}.
 
 (* ---------- actions ---------- *)
 Inductive action :=
@@ -145,42 +157,35 @@ Definition step (s : state) (a : action) : option state :=
   | EAvail p a =>
       let x := s_peers s p in
       Some (set_peer s p {| p_alive := p_alive x; p_avail := a; p_permits := p_permits x;
-                            p_acc := p_acc x; p_held := p_held x |})
+                            p_acc := p_acc x |})
   | EPermit p =>
       let x := s_peers s p in
       Some (set_peer s p {| p_alive := p_alive x; p_avail := p_avail x; p_permits := S (p_permits x);
-                            p_acc := p_acc x; p_held := p_held x |})
+                            p_acc := p_acc x |})
   | ESucceed p i =>
-      let x := s_peers s p in
-      match nth_error (p_held x) i with
+      match take_pth p i (s_held s) with
       | None => Some s
-      | Some (_, c) =>
-          Some {| s_q := s_q s; s_ver := s_ver s;
-                  s_peers := upd (s_peers s) p
-                    {| p_alive := p_alive x; p_avail := p_avail x; p_permits := p_permits x;
-                       p_acc := p_acc x; p_held := remove_nth i (p_held x) |};
-                  s_reqs := s_reqs s; s_sent := c :: s_sent s; s_dropped := s_dropped s |}
+      | Some (e, l') =>
+          Some {| s_q := s_q s; s_ver := s_ver s; s_peers := s_peers s; s_reqs := s_reqs s;
+                  s_held := l'; s_sent := h_chan e :: s_sent s; s_dropped := s_dropped s |}
       end
   | EFail p i =>
-      let x := s_peers s p in
-      match nth_error (p_held x) i with
+      match take_pth p i (s_held s) with
       | None => Some s
-      | Some (_, c) =>
-          Some {| s_q := s_q s; s_ver := s_ver s;
-                  s_peers := upd (s_peers s) p
-                    {| p_alive := p_alive x; p_avail := p_avail x; p_permits := p_permits x;
-                       p_acc := p_acc x; p_held := remove_nth i (p_held x) |};
-                  s_reqs := s_reqs s; s_sent := s_sent s; s_dropped := c :: s_dropped s |}
+      | Some (e, l') =>
+          Some {| s_q := s_q s; s_ver := s_ver s; s_peers := s_peers s; s_reqs := s_reqs s;
+                  s_held := l'; s_sent := s_sent s; s_dropped := h_chan e :: s_dropped s |}
       end
   | EDisc p =>
       let x := s_peers s p in
       if p_alive x then
         Some {| s_q := s_q s; s_ver := s_ver s;
                 s_peers := upd (s_peers s) p
-                  {| p_alive := false; p_avail := p_avail x; p_permits := p_permits x;
-                     p_acc := p_acc x; p_held := [] |};
-                s_reqs := s_reqs s; s_sent := s_sent s;
-                s_dropped := map snd (p_held x) ++ s_dropped s |}
+                  {| p_alive := false; p_avail := p_avail x; p_permits := p_permits x; p_acc := p_acc x |};
+                s_reqs := s_reqs s;
+                s_held := filter (fun e => negb (Nat.eqb (h_peer e) p)) (s_held s);
+                s_sent := s_sent s;
+                s_dropped := map h_chan (held_of p (s_held s)) ++ s_dropped s |}
       else Some s
   | RIns r =>
       let x := s_reqs s r in
@@ -190,7 +195,7 @@ Definition step (s : state) (a : action) : option state :=
           Some {| s_q := q'; s_ver := bump (is_min q' n) (s_ver s);
                   s_peers := s_peers s;
                   s_reqs := upd (s_reqs s) r {| r_st := RWait n att; r_cancel := r_cancel x |};
-                  s_sent := s_sent s;
+                  s_held := s_held s; s_sent := s_sent s;
                   s_dropped := match qlookup n (s_q s) with
                                | Some c0 => c0 :: s_dropped s   (* overridden sender is dropped *)
                                | None => s_dropped s
@@ -223,7 +228,7 @@ Definition step (s : state) (a : action) : option state :=
             Some {| s_q := qremove n (s_q s); s_ver := bump (is_min (s_q s) n) (s_ver s);
                     s_peers := s_peers s;
                     s_reqs := upd (s_reqs s) r {| r_st := RDone false; r_cancel := true |};
-                    s_sent := s_sent s;
+                    s_held := s_held s; s_sent := s_sent s;
                     s_dropped := match qlookup n (s_q s) with
                                  | Some c0 => c0 :: s_dropped s
                                  | None => s_dropped s
@@ -236,7 +241,7 @@ Definition step (s : state) (a : action) : option state :=
       match p_alive x, p_acc x, p_permits x with
       | true, AIdle, S k =>
           Some (set_peer s p {| p_alive := true; p_avail := p_avail x; p_permits := k;
-                                p_acc := AWatch (s_ver s) (qmin (s_q s)); p_held := p_held x |})
+                                p_acc := AWatch (s_ver s) (qmin (s_q s)) |})
       | _, _, _ => None
       end
   | AWake p =>
@@ -262,12 +267,12 @@ Definition step (s : state) (a : action) : option state :=
           | Some c =>
               let q' := qremove n (s_q s) in
               Some {| s_q := q'; s_ver := bump (negb (qempty q')) (s_ver s);
-                      s_peers := upd (s_peers s) p
-                        {| p_alive := p_alive x; p_avail := p_avail x; p_permits := p_permits x;
-                           p_acc := AIdle;
-                           (* a cancelled connection drops the sender at once *)
-                           p_held := if p_alive x then p_held x ++ [(n, c)] else [] |};
-                      s_reqs := s_reqs s; s_sent := s_sent s;
+                      s_peers := upd (s_peers s) p (with_acc x AIdle);
+                      s_reqs := s_reqs s;
+                      (* a cancelled connection drops the sender at once *)
+                      s_held := if p_alive x then s_held s ++ [{| h_peer := p; h_num := n; h_chan := c |}]
+                                else s_held s;
+                      s_sent := s_sent s;
                       s_dropped := if p_alive x then s_dropped s else c :: s_dropped s |}
           | None =>
               (* "someone else accepts our request faster": wait again if still active *)
@@ -439,14 +444,15 @@ Definition obs_ev (e : ev) : obsv :=
   | EvAccDead p n => OL [OZ 1; onat p; OZ n]
   | EvReq r ok => OL [OZ 2; onat r; ob ok]
   end.
-Definition obs_peer (x : peer) : obsv :=
+Definition obs_peer (s : state) (p : nat) : obsv :=
+  let x := s_peers s p in
   OL [ob (p_alive x); ob (match p_acc x with AIdle => false | _ => true end);
-      onat (if p_alive x then p_permits x else O); ozs (map fst (p_held x))].
+      onat (if p_alive x then p_permits x else O); ozs (map h_num (held_of p (s_held s)))].
 Definition obs_req (x : req) : obsv :=
   OZ (match r_st x with RNone => 0 | RInsert _ _ => 1 | RWait _ _ => 1 | RDone true => 2 | RDone false => 3 end).
 
 Definition obs_state (s : state) (np nr : nat) : list obsv :=
-  [ozs (current_blocks s); OL (map (fun p => obs_peer (s_peers s p)) (seq 0 np));
+  [ozs (current_blocks s); OL (map (obs_peer s) (seq 0 np));
    OL (map (fun r => obs_req (s_reqs s r)) (seq 0 nr))].
 
 (* status 0 = accepted and quiescent, 1 = events not reproducible by the model, 2 = the model
